@@ -53,4 +53,34 @@ theorem src_get_address_eq_model (fm : FMap) (strides : Shape3) (y x c : Int) :
   · py_exec [get_address, pyIndex, if_pos, if_neg, List.getElem?_cons_zero, List.getElem?_cons_succ]
     py_finish
 
+/-- `get_strides(fm)`: explicit strides when `fm.strides is not None`, the layout formulas otherwise
+    (`sd sh sw` stand for the attributes of `fm.strides`, which are only read when it is not `None`) -/
+theorem src_get_strides_eq_model (fm : FMap) (sd sh sw : Int)
+    (hs : ∀ s, fm.strides = some s → s.depth = sd ∧ s.height = sh ∧ s.width = sw) :
+    get_strides (.py fm.elemBytes) (.py fm.shape.depth) (.py fm.shape.width) (.py sd) (.py sh) (.py sw)
+        (!fm.nhcwb16) fm.strides.isNone =
+      .ok (.py (getStrides fm).height, .py (getStrides fm).width, .py (getStrides fm).depth) := by
+  unfold getStrides
+  have hr := SrcNumericUtil.round_up_py fm.shape.depth 16 (by decide)
+  cases hst : fm.strides with
+  | some s =>
+    obtain ⟨h1, h2, h3⟩ := hs s hst
+    subst h1 h2 h3
+    py_exec [get_strides, Option.isNone, if_pos, if_neg]
+  | none =>
+    cases hl : fm.nhcwb16 <;>
+    · py_exec [get_strides, Option.isNone, if_pos, if_neg, hr, NpuAccess.roundUp]
+
+/-- `get_address_range(fm, strides, y0, x0, c0, y1, x1, c1)` = the model's `NpuAddressRange` -/
+theorem src_get_address_range_eq_model (fm : FMap) (strides : Shape3) (y0 x0 c0 y1 x1 c1 : Int) :
+    get_address_range (.py y0) (.py x0) (.py c0) (.py y1) (.py x1) (.py c1) (.py fm.elemBytes) (.py fm.region)
+        (.py fm.tiles.height0) (.py fm.tiles.height1) (.py fm.tiles.width0) (.py strides.depth) (.py strides.height)
+        (.py strides.width) [.py fm.tiles.a0, .py fm.tiles.a1, .py fm.tiles.a2, .py fm.tiles.a3]
+        fm.nhcwb16 (!fm.nhcwb16) =
+      .ok (.py (getAddressRange fm strides y0 x0 c0 y1 x1 c1).region,
+           .py (getAddressRange fm strides y0 x0 c0 y1 x1 c1).address,
+           .py (getAddressRange fm strides y0 x0 c0 y1 x1 c1).length) := by
+  unfold getAddressRange
+  py_exec [get_address_range, src_get_address_eq_model]
+
 end VelaVerif.Props.C04Src
